@@ -5,7 +5,13 @@ import shardlib
 
 PROP = "C01"
 PROPS_V = "theories/Props/C01.v"
-THEOREMS = []
+THEOREMS = ["C01_survives_unless_pruned", "C01_durable_exactly_once_outside_known", "C01_no_phantom",
+            "C01_no_phantom_after_crash", "C01_never_duplicated", "C01_lockstep_no_loss",
+            "C01_lockstep_wlost_in_dirs", "C01_lockstep_wlost_empty", "C01_lockstep_wlost_empty_refuted",
+            "C01_lockstep_needs_wal_order_refuted", "C01_exactly_once_after_first_crash", "C01_manual_flush_refuted",
+            "C01_id_drift_refuted", "C01_id_drift_short_refuted", "C01_durable_exactly_once_refuted",
+            "C01_count_type_blind_refuted", "C01_count_double_refuted", "C01_count_after_restart",
+            "C01_count_ge_select", "C01_count_covers_durable"]
 RULE = ("engine histories on one shard with WAL flush_each_write: STORE/FLUSH, process kills between commands and "
         "abort() injected at every hook step point (WAL write/rotation, rotation, dir creation, per-type file write, "
         "index tmp/rename, publish, passive clear, WAL delete, done), then restart and observe; non-trivial = the "
@@ -16,8 +22,12 @@ ASSUMPTIONS = ["process crash only: power loss / fsync ordering is outside the m
 TRUSTED = ["Coq 8.16.1 kernel + coqc", "extraction (ExtrOcamlBasic) + ocaml/p_shard.ml",
            "engine harness vharn life + tools/engine.py + tools/shardlib.py (trace -> label mapping)",
            "hooks in /repo under cfg(sneldb_verif): labelled step points, abort injection"]
-CLAIMED = False
-MANIFEST = {}
+CLAIMED = True
+MANIFEST = {
+ "level_text": "Theorems over the trace-validated shard model, for ALL label lists (stores, manual flushes, WAL writes/rotations, flush-worker stages, crashes and restarts in any order, no bound): every durable event (WAL entry written) that is not in the model's ghost list of pruned WAL entries is returned exactly once after crash+restart and after a clean restart; nothing is read that was not stored; no selection ever contains a key twice. For one lifetime without manual FLUSH (WAL thread in program order) no durable event is lost, so every durable event is read exactly once after the first crash. The unconditional property is refuted by machine-checked witnesses of the known class OpenWalFilePruned (manual FLUSH; segment/WAL id drift after a crash during rotation), COUNT after recovery by witnesses of CountAfterRecovery together with the exact value and lower bounds that do hold. The model is tied to the engine by trace validation: generated histories with abort() injected at every hook step point, every observation compared.",
+ "design_ref": "DESIGN.md \u00a76 C01",
+ "level_note": "Trusted: Coq kernel; hand-written model Model/Shard.v (differentially validated, not proved against the Rust); ExtrOcamlBasic extraction + ocaml/p_shard.ml; engine harness and trace-to-label mapping; hooks under cfg(sneldb_verif). Process crash only (no power loss / fsync ordering); one shard; flush_each_write. The lockstep theorems assume the WAL thread's program order (no write while a rotation is due), which label lists of the engine satisfy; without it the model loses an event (witness proved)."
+}
 
 CRASH_POINTS = ["st_wal_sent", "st_inserted", "wal_written", "wal_rotating", "wal_file_started", "st_rotated", "fw_begin", "fl_dir_created",
                 "fl_type_written", "idx_tmp_written", "idx_renamed", "fl_index_entry_added", "fw_flushed", "fw_verified",
